@@ -29,7 +29,7 @@ CLAIMS = {
                      'find_deferred == descendant closure, remove_* soundness, helpers panic-free on all graphs); '
                      'the verdict of the two-pass entry point as a whole only bounded: exhaustive execution of the real checker against the reference semantics on all graphs of <= 3 nodes and a seventh of those with 4 (xrun graph)'),
     'C03': ('other', 'Verus proof of state-read routing (vm_core), of read_or_fallback == per-key overlay of proposed values on the pre-state (all ranges, deletions, key carry) and of find_deferred == descendant closure; '
-                     'next_key, post-state map construction and pass sequencing only bounded (Kani next_key all words for key lengths 0,1,2,3 and 4,6 in the thorough tier; xrun graph: two-pass entry point vs reference semantics; xrun effects: the deferral byte scan)'),
+                     'next_key, post-state map construction and pass sequencing only bounded (Kani next_key all words for key lengths 0,1,2,3,4,6, thorough tier only - the quick tier relies on the key-carry cases of xrun graph; xrun graph: two-pass entry point vs reference semantics; xrun effects: the deferral byte scan)'),
     'C13': ('proof', 'Verus proof, on the macro-expanded text the proc-macro really emitted, that opcode<->byte tables, immediates, per-op parse/serialise and the byte iterators equal spec tables generated from asm.yml by an independent YAML reading; sequence round trips are Verus lemmas over those tables; comparison with the pinned opcode table; complete Kani proofs on the compiled crate; the streaming from_bytes / to_bytes adapters (from_fn / flat_map, outside Verus) additionally by a bounded stand-in: xrun asm, long streams with a Push at every byte offset, all byte strings of length <= 2, truncations, partially consumed iterators'),
     'C15': ('proof', 'Verus proof that analyze(ops) is exactly the union of the effect flags present (all slices); the bitflags API by a complete Kani proof; bytes_contains_any (outside Verus) only bounded: Kani on all well-formed byte strings up to 20 bytes x all effect sets'),
 }
